@@ -115,7 +115,7 @@ PROPERTIES["C11"] = dict(
              "single-assertion conflicts without a producer position (enclosing-function scan over pass.Files)", "toPos (C14)"],
     assumptions=COMMON_ASSUMPTIONS + ["toPos is replaced by the identity on offsets under symx (its result is not observed); the native replay runs the real toPos"],
     runs=[
-        dict(pkg="diagnostic", files=["diagnostic/zz_verif_c11.go", "diagnostic/zz_verif_c14.go"], entry="Harness_C11",
+        dict(pkg="diagnostic", files=["diagnostic/zz_verif_c11.go", "diagnostic/zz_verif_c14.go", "diagnostic/zz_verif_c04k1.go"], entry="Harness_C11",
              quick=dict(params=dict(N=2, R=2)), thorough=dict(params=dict(N=3, R=1)), args=dict(sample_every=997)),
     ],
 )
@@ -129,7 +129,7 @@ PROPERTIES["C13"] = dict(
              "single-assertion conflicts without a producer position"],
     assumptions=COMMON_ASSUMPTIONS,
     runs=[
-        dict(pkg="diagnostic", files=["diagnostic/zz_verif_c11.go", "diagnostic/zz_verif_c14.go"], entry="Harness_C13",
+        dict(pkg="diagnostic", files=["diagnostic/zz_verif_c11.go", "diagnostic/zz_verif_c14.go", "diagnostic/zz_verif_c04k1.go"], entry="Harness_C13",
              quick=dict(params=dict(N=3)), thorough=dict(params=dict(N=5)), args=dict(sample_every=499)),
     ],
 )
@@ -159,12 +159,14 @@ PROPERTIES["C04"] = dict(
     explanation="symx treats the iteration order of every Go map as a choice point (n! orders) and the order in which dependency facts arrive as a choice. Each kernel is executed twice inside "
                 "one path with independent orders and the insertion-ordered inferred map (whose Pairs sequence determines the gob bytes of the exported fact) / the exported nolint ranges must be "
                 "identical; scalar values stay symbolic and are decided by the solver.",
-    bounds=dict(quick="K2: 2 annotated sites (fields / package variables, shallow+deep); K3: 2-3 controlled triggers under one controller; K4: two dependency facts from 1 constraint each over 4 sites",
-                thorough="K2: 2-3 annotated sites; K3: 2-4 triggers; K4: <=2 constraints each"),
+    bounds=dict(quick="K1: 2 suppressed statements with symbolic line ranges in a 5-line file, 4 comment spellings; K2: 2 annotated sites (fields / package variables, shallow+deep); K3: 2-3 controlled triggers under one controller; K4: two dependency facts from 1 constraint each over 4 sites",
+                thorough="K1: 2-3 statements; K2: 2-3 annotated sites; K3: 2-4 triggers; K4: <=2 constraints each"),
     outside=["goroutine scheduling and channel arrival order in function.run (C16's machinery)", "GOMAXPROCS", "the gob encoder itself",
              "map iteration inside AST-walking code (duplicateFullTriggersFromContractedFunctionsToCallers, affiliation, ...) - not yet encoded"],
     assumptions=COMMON_ASSUMPTIONS + ["a native run cannot choose map iteration order: counterexamples are confirmed natively by repeating the run (the two replays inside one run use the runtime's random orders)"],
     runs=[
+        dict(pkg="diagnostic", files=["diagnostic/zz_verif_c11.go", "diagnostic/zz_verif_c14.go", "diagnostic/zz_verif_c04k1.go"], entry="Harness_C04_K1", map_order=True,
+             quick=dict(params=dict(STMTS=2)), thorough=dict(params=dict(STMTS=3)), args=dict(sample_every=499)),
         dict(pkg="inference", files=INFER_FILES, entry="Harness_C04_K2", map_order=True,
              quick=dict(params=dict(ENTRIES=2)), thorough=dict(params=dict(ENTRIES=3)), args=dict(sample_every=199)),
         dict(pkg="inference", files=INFER_FILES, entry="Harness_C04_K3", map_order=True,
@@ -220,9 +222,9 @@ def confirm_c17_templ(vs, outdir):
     """Native confirmation: an analyzer sharing the pass with NilAway inspects the literal CFGs of the templ test package."""
     import json, os, subprocess
     ov = os.path.join(outdir, "overlay_c17_probe.json")
-    json.dump({"Replace": {"/repo/zz_verif_c17_probe_test.go": "/verif/harness/native/zz_verif_c17_probe_test.go"}}, open(ov, "w"))
+    json.dump({"Replace": {os.environ.get("VERIF_REPO", "/repo") + "/zz_verif_c17_probe_test.go": "/verif/harness/native/zz_verif_c17_probe_test.go"}}, open(ov, "w"))
     env = dict(os.environ, GOFLAGS="-mod=mod", GOPROXY="off")
-    r = subprocess.run(["go", "test", "-vet=off", "-count=1", "-run", "^TestVerifC17TemplProbe$", "-overlay", ov, "."], cwd="/repo", env=env,
+    r = subprocess.run(["go", "test", "-vet=off", "-count=1", "-run", "^TestVerifC17TemplProbe$", "-overlay", ov, "."], cwd=os.environ.get("VERIF_REPO", "/repo"), env=env,
                        stdout=subprocess.PIPE, stderr=subprocess.STDOUT, text=True)
     return r.returncode != 0 and "shared function-literal CFG was modified" in r.stdout
 
@@ -305,8 +307,8 @@ PROPERTIES["C14"] = dict(
              "that each flow step's printed file:line:column exists (the steps' positions come from the analysed program)"],
     assumptions=COMMON_ASSUMPTIONS + ["os.Getwd returns a constant under symx (tokenhelper's initialiser is executed)", "explanations are harness implementations of inference.ExplainedBool (the engine's own carry an unexported type)"],
     runs=[
-        dict(pkg="diagnostic", files=["diagnostic/zz_verif_c11.go", "diagnostic/zz_verif_c14.go"], entry="Harness_C14_Conflict", args=dict(sample_every=3)),
-        dict(pkg="diagnostic", files=["diagnostic/zz_verif_c11.go", "diagnostic/zz_verif_c14.go"], entry="Harness_C14_ToPos", args=dict(sample_every=31)),
+        dict(pkg="diagnostic", files=["diagnostic/zz_verif_c11.go", "diagnostic/zz_verif_c14.go", "diagnostic/zz_verif_c04k1.go"], entry="Harness_C14_Conflict", args=dict(sample_every=3)),
+        dict(pkg="diagnostic", files=["diagnostic/zz_verif_c11.go", "diagnostic/zz_verif_c14.go", "diagnostic/zz_verif_c04k1.go"], entry="Harness_C14_ToPos", args=dict(sample_every=31)),
     ],
 )
 
